@@ -74,7 +74,7 @@ func c38Exec(c c38Case, x *pbt.Ctx) error {
 	if err != nil {
 		return fmt.Errorf("HARNESS: cannot start node: %v", err)
 	}
-	defer n.Stop()
+	defer n.Close()
 	for i := 1; i < len(w.Blocks); i++ {
 		if _, err := n.Deliver(i); err != nil {
 			return fmt.Errorf("HARNESS: valid chain block #%d refused: %v", i, err)
